@@ -54,6 +54,10 @@ type tcase struct {
 	RStatus          string `json:"rstatus"`
 	RRespID          string `json:"rrespId"`
 	HasCert          bool   `json:"hasCert"`
+	// multi-certificate configurations (spec/OCSPCerts.tla)
+	Multi    bool     `json:"multi"`
+	Certs    []string `json:"certs"`
+	Returned int      `json:"returned"`
 }
 
 // ------------------------------------------------------------------------------------------------ PKI
@@ -66,6 +70,7 @@ type pki struct {
 	dByI, dNoEku    *x509.Certificate // delegated responder certificates issued by I
 	dByO, dSelf     *x509.Certificate
 	oCA, wCA, rRoot *x509.Certificate
+	lByI, oByW      *x509.Certificate // issued by I for key W ("some other subject the issuer certified"); attacker key O certified by W
 	leaf7, leaf8    *x509.Certificate // the `cert` argument: serial of the response / another serial
 	bigSerial       *big.Int
 	imp             map[string]*impSet // "<self|inter>/<subject|keyids|serial|all>": certificates that copy identity attributes of the issuer
@@ -212,6 +217,8 @@ func newPKI(name string, kinds [5]string) (*pki, error) {
 	step(&p.dByO, "responder D", "D", p.oCA, "O", false, ocspEKU, nil)
 	step(&p.dSelf, "responder D", "D", nil, "D", false, ocspEKU, nil)
 	p.bigSerial, _ = new(big.Int).SetString("00c3a1f2e4d5b6a798897a6b5c4d3e2f1a0b9c8d", 16)
+	step(&p.lByI, "leaf L", "W", p.iSelf, "I", false, nil, nil)
+	step(&p.oByW, "attacker A", "O", p.wCA, "W", false, ocspEKU, nil)
 	step(&p.leaf7, "leaf", "D", p.iSelf, "I", false, nil, big.NewInt(7))
 	step(&p.leaf8, "leaf", "D", p.iSelf, "I", false, nil, big.NewInt(8))
 	if err == nil {
@@ -759,6 +766,13 @@ func TestC48(t *testing.T) {
 			return err
 		}
 		idx++
+		if c.Multi {
+			for _, p := range pkis { // few and cheap: every flavour in both tiers
+				idx++
+				replayMulti(&c, p, idx, out, viol, cnt)
+			}
+			return nil
+		}
 		fl := []*pki{pkis[idx%len(pkis)]}
 		if allFlavours || (c.Imp != "" && c.Imp != "none") { // impersonation cases are few: every flavour in both tiers
 			fl = pkis
@@ -832,6 +846,11 @@ func replayCase(c *tcase, p *pki, idx int, everyByte bool, out *vutil.Out, viol 
 				}
 				viol(sig, "with an issuer given, a response is accepted that is signed neither by the issuer nor by an embedded certificate the issuer signed ("+why+")",
 					det(map[string]any{"pos": pos, "input": fmt.Sprintf("%x", d)}))
+			}
+		}
+		if o.accept && issuerArg != nil {
+			if ok, why := returnedIsSigner(d, o.resp, issuerArg); !ok {
+				viol("ocsp-returned-cert-not-signer", "accepted, but "+why, det(map[string]any{"pos": pos, "input": fmt.Sprintf("%x", d)}))
 			}
 		}
 		if o.accept && c.Region == "tbs" && pos >= 0 && issuerArg != nil {
@@ -1049,4 +1068,139 @@ func explore(t *testing.T, out *vutil.Out, viol func(string, string, any), p *pk
 	}
 	out.Extra["c48_explore_inputs"] = explored
 	out.Extra["c48_explore_panics"] = panics
+}
+
+// spliceCerts replaces the certificates field of a response by the given sequence (tbsResponseData and signature untouched).
+func spliceCerts(der []byte, certs []*x509.Certificate) ([]byte, error) {
+	outer, basic, err := unwrap(der)
+	if err != nil {
+		return nil, err
+	}
+	basic.Certificates = nil
+	for _, c := range certs {
+		basic.Certificates = append(basic.Certificates, asn1.RawValue{FullBytes: c.Raw})
+	}
+	nb, err := asn1.Marshal(*basic)
+	if err != nil {
+		return nil, err
+	}
+	outer.Response.Response = nb
+	return asn1.Marshal(*outer)
+}
+
+// returnedIsSigner: what the package reports as the signer must be the certificate whose key verifies the response and
+// that the issuer signed -- the SAME certificate.
+func returnedIsSigner(der []byte, r *ocsp.Response, issuer *x509.Certificate) (bool, string) {
+	_, basic, err := unwrap(der)
+	if err != nil {
+		return true, ""
+	}
+	alg := sigAlgo[basic.SignatureAlgorithm.Algorithm.String()]
+	tbs, sig := []byte(basic.TBSResponseData.Raw), basic.Signature.RightAlign()
+	if r.Certificate == nil {
+		if issuer.CheckSignature(alg, tbs, sig) != nil {
+			return false, "no certificate returned and the response is not signed by the issuer"
+		}
+		return true, ""
+	}
+	if r.Certificate.CheckSignature(alg, tbs, sig) != nil {
+		return false, "the certificate returned as the signer does not verify the response signature"
+	}
+	if issuer.CheckSignature(r.Certificate.SignatureAlgorithm, r.Certificate.RawTBSCertificate, r.Certificate.Signature) != nil {
+		return false, "the certificate returned as the signer is not signed by the issuer"
+	}
+	return true, ""
+}
+
+// replayMulti: a response whose certificates field is a sequence of 0..3 certificates (OCSPCerts.tla).
+func replayMulti(c *tcase, p *pki, idx int, out *vutil.Out, viol func(string, string, any), cnt map[string]int) {
+	issuer := p.iSelf
+	material := map[string]*x509.Certificate{"issuerOwn": p.iSelf, "delegated": p.dByI, "leafByIssuer": p.lByI, "attackerSelf": p.oCA, "attackerByOther": p.oByW}
+	keyOf := map[string]string{"I": "I", "D": "D", "L": "W", "A": "O"}
+	responderOf := map[string]*x509.Certificate{"I": p.iSelf, "D": p.dByI, "L": p.lByI, "A": p.oCA}
+	var certs []*x509.Certificate
+	for _, n := range c.Certs {
+		if material[n] == nil {
+			viol("c48-harness", "no material for certificate kind "+n, c)
+			return
+		}
+		certs = append(certs, material[n])
+	}
+	priv := p.keys[keyOf[c.SigKey]]
+	tc := tcase{Status: []string{"good", "revoked", "unknown"}[idx%3], CertArg: "nil", RespID: "byName"}
+	ti := mkTemplate(&tc, p, idx, priv, nil)
+	der, err := ocsp.CreateResponse(issuer, responderOf[c.SigKey], ti.tmpl, priv)
+	if err == nil {
+		der, err = spliceCerts(der, certs)
+	}
+	if err != nil {
+		viol("c48-harness", "cannot build a multi-certificate response: "+err.Error(), c)
+		return
+	}
+	var issuerArg *x509.Certificate
+	if c.IssuerGiven {
+		issuerArg = issuer
+	}
+	inputs := [][]byte{der}
+	if c.Region == "tbs" {
+		reg, err := locate(der)
+		if err != nil {
+			viol("c48-harness", "locate: "+err.Error(), c)
+			return
+		}
+		inputs = nil
+		for i, pos := range []int{reg.tbs.lo + 4, (reg.tbs.lo + reg.tbs.hi) / 2, reg.tbs.hi - 1} {
+			d := append([]byte{}, der...)
+			d[pos] ^= []byte{0x01, 0x80, 0xff}[(i+idx)%3]
+			inputs = append(inputs, d)
+		}
+	}
+	if len(certs) >= 2 {
+		cnt["multi_cert_responses"]++
+	}
+	for ii, d := range inputs {
+		out.Case(fmt.Sprintf("multi|%v|%s|%v|%s|%s|%d", c.Certs, c.SigKey, c.IssuerGiven, c.Region, p.name, ii))
+		det := map[string]any{"case": c, "pki": p.name, "input": fmt.Sprintf("%x", d)}
+		o := realParse(d, nil, issuerArg)
+		if o.panic != nil {
+			det["panic"] = fmt.Sprint(o.panic)
+			viol("ocsp-parse-panic", "ParseResponseForCert panicked", det)
+			continue
+		}
+		if o.accept && issuerArg != nil {
+			if ok, why, judged := authorized(d, issuerArg); judged && !ok {
+				viol("ocsp-unauthorized-accepted:multi-cert:"+c.Region, "with an issuer given, a response is accepted that is signed neither by the issuer nor by an embedded certificate the issuer signed ("+why+")", det)
+			}
+			if ok, why := returnedIsSigner(d, o.resp, issuerArg); !ok {
+				viol("ocsp-returned-cert-not-signer", "accepted, but "+why, det)
+			}
+			if c.Region == "tbs" {
+				viol("ocsp-modified-signed-bytes-accepted", "a modification of the signed bytes (tbsResponseData) is accepted", det)
+			}
+		}
+		switch {
+		case c.D == "any":
+			cnt["unpredicted_multi"]++
+		case (c.D == "accept") != o.accept:
+			if o.accept {
+				cnt["more_lenient_than_model:multi-cert"]++
+			} else if c.Region == "none" {
+				viol("ocsp-decision:multi-cert:rejected", "ParseResponseForCert rejects an unmodified response the model accepts: "+o.err, det)
+			}
+		case o.accept && c.Region == "none":
+			// the certificate reported is the one at the model's position
+			want := (*x509.Certificate)(nil)
+			if c.Returned > 0 {
+				want = certs[c.Returned-1]
+			}
+			if (want == nil) != (o.resp.Certificate == nil) || (want != nil && !bytes.Equal(want.Raw, o.resp.Certificate.Raw)) {
+				viol("ocsp-returned-cert-position", "Response.Certificate is not the certificate the model says is the signer", det)
+			}
+		}
+		if o.accept {
+			cnt["accepted"]++
+		} else {
+			cnt["rejected"]++
+		}
+	}
 }
